@@ -4,7 +4,7 @@ NOTES = ("Runtime monitoring only: every check executes the real code of /repo u
          "over what was observed. VERIF_SEED changes every random choice; VERIF_TIER overrides the tier. Exit 2 = build/harness failure "
          "(never a VIOLATION line). Known findings: /verif/known_findings.json. See DESIGN.md.")
 ENGINES = [
-    {"name": "vmux", "path": "harness/mux", "serves_properties": ["C09", "C18", "C20"],
+    {"name": "vmux", "path": "harness/mux", "serves_properties": ["C02", "C03", "C04", "C05", "C09", "C18", "C20"],
      "kind_free_text": "Rust harness over penguin-mux/cow-bytes/penguin-socks: PURE differential monitors, SIM (tokio current-thread, paused clock, in-memory WebSocket with wire tap and fault plan), THR, MICRO, Miri"},
 ]
 NOT_APPLICABLE = {}
@@ -33,5 +33,33 @@ TEXT = {
         "level_text": "Every operation of every sequence is executed on three real chains (borrowed, owned, mixed) and a Vec<u8> model; len/remaining/is_empty/chunks/drain are compared after each step in a "
                       "production-profile build; all sequences up to length 3 (quick) or 4 (thorough) over a 41-operation boundary alphabet are enumerated. Exploration with an exhaustive sub-space.",
         "level_note": "Trusted: the Vec<u8> model. Sequences longer than the enumerated bound are only sampled.",
+    },
+    "C02": {
+        "engine": "vmux (SIM)",
+        "technique": "offline history checker over recorded executions: position-addressed payloads, per (stream, direction) prefix/equality oracle, seeded schedule jitter and back-pressure",
+        "design_ref": "DESIGN.md §4 C02, appendix A",
+        "level_text": "Thousands of seeded executions of the real Multiplexor pair over an in-memory WebSocket; every read is checked to be the exact continuation of its own stream (prefix at every moment, equality after clean shutdown + EOF, no cross-talk). Exploration of schedules/configurations, not exhaustive.",
+        "level_note": "Trusted: the in-memory WebSocket preserves order per direction (as WebSocket does); the PRF makes corruption/reordering/cross-talk visible with overwhelming probability.",
+    },
+    "C03": {
+        "engine": "vmux (SIM)",
+        "technique": "online credit-accounting monitor on the wire tap plus CreditTaken/FrameConsumed/WindowOverrun hooks over seeded window-edge workloads",
+        "design_ref": "DESIGN.md §4 C03, appendix A",
+        "level_text": "Rules R1-R5 (DESIGN appendix A.1) are evaluated on every Push/Acknowledge/Reset of every execution: outstanding frames never exceed the advertised window, one write = one frame = one unit, acknowledged <= consumed, no WindowOverrun/Reset of a live flow. Exploration.",
+        "level_note": "Trusted: the reference codec used by the tap; hook placement (add-only) in poll_obtain_write_permission / increment_psh_recvd_since / the Full arm of dispatch.",
+    },
+    "C04": {
+        "engine": "vmux (SIM)",
+        "technique": "bounded-progress monitor: quiescence watchdog in virtual time over the full option grid and isolation scenarios",
+        "design_ref": "DESIGN.md §4 C04, appendix A",
+        "level_text": "Liveness restated as bounded progress: a run is a stall iff the paused-clock runtime goes idle with an awaited operation pending (exact for the executed schedule, load-independent). Thorough enumerates all 1764 (rwnd,threshold) pairs x buffer sizes; isolation scenarios keep one stream's reader absent while healthy streams, late opens and datagrams must complete.",
+        "level_note": "Unbounded 'eventually' is out of reach of runtime monitoring; fairness = tokio's FIFO scheduler plus seeded postponements.",
+    },
+    "C05": {
+        "engine": "vmux (SIM)",
+        "technique": "offline history checker against a pipe-with-half-close reference model; seeded close orders, empty and vectored-empty writes",
+        "design_ref": "DESIGN.md §4 C05, appendix A",
+        "level_text": "Every read-EOF, write result and shutdown of every execution is checked against the reference model (EOF only after peer finish/abort/connection end and after all bytes of a clean shutdown; BrokenPipe after local shutdown or delivered peer Reset; opposite direction keeps working). Exploration.",
+        "level_note": "The 'write after delivered Reset must fail' rule relies on SIM's single thread (log order == execution order).",
     },
 }
